@@ -199,7 +199,11 @@ func lexInputs(rng *rand.Rand, g *LexGrammar, k, cap, nRandom int) [][]byte {
 		for j := 0; j < n; j++ {
 			switch rng.Intn(10) {
 			case 0:
-				b = append(b, byte(0x80+rng.Intn(0x80))) // stray continuation / invalid lead byte
+				if rng.Intn(2) == 0 {
+					b = append(b, byte(0x80+rng.Intn(0x80))) // stray continuation / invalid lead byte
+				} else {
+					b = append(b, "\x80\xbf\xc0\xc2\xe0\xed\xf4\xf5\xff"[rng.Intn(9)])
+				}
 			case 1:
 				b = append(b, "\n\r\t "[rng.Intn(4)])
 			default:
@@ -209,8 +213,22 @@ func lexInputs(rng *rand.Rand, g *LexGrammar, k, cap, nRandom int) [][]byte {
 		}
 		inputs = append(inputs, b)
 	}
+	// ill-formed UTF-8, one shape at a time, alone and between two pieces of the grammar's own
+	// text: every byte that is not part of a well-formed sequence is one U+FFFD to the lexer
+	var piece []byte
+	if len(used) > 0 {
+		piece, _ = g.textOfAtoms([]int{used[rng.Intn(len(used))]}, 0)
+	}
+	for _, ill := range illFormed {
+		inputs = append(inputs, []byte(ill), append(append(append([]byte{}, piece...), ill...), piece...))
+	}
 	return inputs
 }
+
+// illFormed: stray continuation bytes, lead bytes without continuation, truncated sequences,
+// overlong forms, surrogates, values beyond U+10FFFF, bytes that never occur in UTF-8.
+var illFormed = []string{"\x80", "\xbf", "\xc0", "\xc1", "\xc2", "\xe0", "\xe0\x80", "\xe0\xa0", "\xed\xa0\x80", "\xf0\x90\x80",
+	"\xf4\x90\x80\x80", "\xf5", "\xf8", "\xfe", "\xff", "\xc0\x80", "\xe0\x9f\xbf", "\xf0\x8f\xbf\xbf", "\x80\x80", "\xc2\xc2\x80"}
 
 func pow(a, b int) int {
 	r := 1
